@@ -2,6 +2,8 @@ package vm
 
 import (
 	"fmt"
+	"os"
+	"strings"
 
 	"golang.org/x/tools/go/ssa"
 
@@ -50,9 +52,22 @@ type sched struct {
 	killed      bool
 	end         *pathEnd // terminal event raised in a non-main thread
 	log         []int    // thread ids in the order they were switched to
+	events      []string // SYMGO_SCHED_TRACE=1: synchronisation events, for debugging harnesses
+}
+
+var schedTrace = os.Getenv("SYMGO_SCHED_TRACE") != ""
+
+func (st *State) ev(what string) {
+	if schedTrace && st.sch.on {
+		st.sch.events = append(st.sch.events, fmt.Sprintf("T%d %s @%s", st.sch.cur, what, st.curFn))
+	}
 }
 
 type threadKill struct{}
+
+// goexitUnwind unwinds a VM thread for runtime.Goexit: deferred calls run, recover() does not
+// see it, the thread then counts as finished.
+type goexitUnwind struct{}
 
 func (st *State) schedOn(preemptions int) {
 	if st.sch.on {
@@ -76,9 +91,12 @@ func (st *State) loadCtx(t *thread) {
 // progress marks a state change that may unblock other threads.
 func (st *State) progress() { st.sch.gen++ }
 
+// eligible lists the threads that can run, in round-robin order after the current one.
 func (st *State) eligible(except *thread) []*thread {
 	var r []*thread
-	for _, t := range st.sch.threads {
+	n := len(st.sch.threads)
+	for k := 1; k <= n; k++ {
+		t := st.sch.threads[(st.sch.cur+k)%n]
 		if t == except || t.done {
 			continue
 		}
@@ -90,15 +108,25 @@ func (st *State) eligible(except *thread) []*thread {
 	return r
 }
 
+// chooseThread implements delay-bounded scheduling (Emmi, Qadeer, Rakamaric 2011): the
+// default is a deterministic scheduler (stay on the running thread; when it cannot run, the
+// next thread in round-robin order); deviating to the k-th alternative costs k units of the
+// path's budget. With budget 0 exactly one schedule is explored, every unit adds the
+// schedules reachable by one more deviation.
 func (st *State) chooseThread(c []*thread, withStay bool) int {
 	n := len(c)
 	if withStay {
 		n++
 	}
-	if n == 1 {
+	if n > st.sch.preemptLeft+1 {
+		n = st.sch.preemptLeft + 1
+	}
+	if n <= 1 {
 		return 0
 	}
-	return st.Choose(make([]*term.T, n))
+	k := st.Choose(make([]*term.T, n))
+	st.sch.preemptLeft -= k
+	return k
 }
 
 // spawnThread is the `go` statement under the scheduler.
@@ -117,7 +145,11 @@ func (st *State) threadMain(t *thread) {
 	t.started = true
 	st.loadCtx(t)
 	r := st.catch(func() { st.call(t.fn, t.args, nil) })
+	if _, ge := r.(goexitUnwind); ge {
+		r = nil
+	}
 	if r == nil {
+		st.ev("exits")
 		t.done = true
 		st.progress()
 		r = st.catch(func() { st.handOver(t) })
@@ -188,6 +220,7 @@ func (st *State) switchTo(next *thread) {
 
 // yield is a preemption point placed before every synchronisation operation.
 func (st *State) yield() {
+	st.ev("sync")
 	if !st.sch.on || st.inInit > 0 || st.sch.preemptLeft <= 0 {
 		return
 	}
@@ -199,7 +232,6 @@ func (st *State) yield() {
 	if k == 0 {
 		return
 	}
-	st.sch.preemptLeft--
 	st.switchTo(c[k-1])
 }
 
@@ -213,6 +245,7 @@ func (st *State) block(what string) bool {
 	if st.inInit > 0 {
 		st.end("unsupported", "blocking operation during package initialisation")
 	}
+	st.ev("blocks: " + what)
 	cur := st.curThread()
 	cur.waitGen = st.sch.gen
 	c := st.eligible(cur)
@@ -249,5 +282,9 @@ func (st *State) scheduleString() string {
 	if !st.sch.on || len(st.sch.log) == 0 {
 		return ""
 	}
-	return fmt.Sprintf(" [schedule: goroutine switches %v, 0 = harness]", st.sch.log)
+	s := fmt.Sprintf(" [schedule: goroutine switches %v, 0 = harness]", st.sch.log)
+	if schedTrace {
+		s += "\n    " + strings.Join(st.sch.events, "\n    ")
+	}
+	return s
 }
